@@ -560,7 +560,7 @@ def ghost_apply(ghost, op, rc, now):
     else:
         comment = ghost[ty][1] if ty in ghost else DEFAULT_COMMENT
     ghost.pop(ty, None)
-    ghost[ty] = (fmt, comment, spec.cd, spec.md, payload)
+    ghost[ty] = (fmt, comment) + tuple(spec.stored_dates()) + (payload,)
 
 
 def ghost_init(d):
@@ -868,9 +868,11 @@ def run(chk, pid):
     if pid == "C03":
         specs = f3b_specs(chk) + gap_specs(chk) + lazy_writer_specs(chk) + specs
     if pid == "C07":
-        specs = gap_specs(chk) + full_comment_specs(chk) + large_invalid_specs(chk) + specs
+        specs = gap_specs(chk) + full_comment_specs(chk) + large_invalid_specs(chk) + missized_specs(chk) + specs
     if pid in ("C04", "C07", "C10", "C11"):
         specs = held_object_specs(chk) + standin_specs(chk) + specs
+    if pid in ("C04", "C10", "C11", "C06"):
+        specs = format_twin_specs(chk) + specs
     chk.rule = ("operation histories: exhaustive over {add,replace,set} x 3 types x 2 sizes + remove x 3 types up to the stated "
                 "length on crafted files N in {1,2,3} (empty / one opaque block), random histories (2-25 calls, 1-6 contexts, "
                 "all nine block types, opaque pre-populated blocks, full tables, rejected calls of every cause injected) on "
@@ -1134,6 +1136,45 @@ def held_object_specs(chk):
     return out
 
 
+def format_twin_specs(chk):
+    """a block replaced by one of ANOTHER FORMAT of its type whose encoding has exactly the same length — or is byte for
+    byte the same (events and optical setups, whose payload does not depend on the format code; marker data with and
+    without the link table, sized to match).  The format code lives only in the table entry: it must be the new one."""
+    rng = common.rng_for(chk.seed, "formattwins")
+    out = []
+    quick = chk.tier == "quick"
+    for rep in range(1 if quick else 5):
+        pairs = []
+        for kind in ("EV", "OS"):
+            for _ in range(50):
+                f, v = blocks.gen(kind, rng, big=3)
+                if v[2]:
+                    break
+            pairs.append((Spec(kind, 1, v), Spec(kind, 0, copy.deepcopy(v))))
+        n = rng.choice((3, 6))
+        z3, rot = [0, 0, 0], [blocks.rf32(rng) for _ in range(9)]
+        fr = [[blocks.rf32(rng) for _ in range(3)] for _ in range(n + 1)]
+        with_links = Spec("D3", 1, [n, 100, 0, 1, z3, rot, z3, 0, [0, [], []], [[[0x61], fr[:n]]]])
+        gap = fr[:1] + [[]] + fr[2:]
+        without = Spec("D3", 2, [n + 1, 100, 0, 1, z3, rot, z3, 0, [], [[[0x61], gap]]])
+        if len(with_links.as_model()[3][0]) != len(without.as_model()[3][0]):
+            raise RuntimeError("generator problem: the two marker blocks are not equally long")
+        pairs.append((with_links, without))
+        for a, b in pairs:
+            kind = a.kind
+            other = container.small_block("PC", rng, 1)
+            more = container.small_block("EM", rng, 1)
+            for x, y in ((a, b), (b, a)):
+                hists = [[[("add", other, None), ("add", x, "first format")], [("replace", y, None), ("add", more, None)]],
+                         [[("add", x, "first format")], [("replace", y, "other format, same length"), ("replace", x, None)], [("add", other, None)]]]
+                if kind in SETTER:
+                    hists.append([[("add", other, None), ("set", x)], [("set", y), ("add", more, None)], [("set", x)]])
+                for h in hists:
+                    init = crafted(chk.work, "twin_%s_%d_%d" % (kind, rep, len(out)), 4, [], rng)
+                    out.append(("crafted N=4 empty", init, h, "replaced by an equally long block of another format"))
+    return out
+
+
 def large_invalid_specs(chk):
     """C07 at size: a replacement / assignment with an UNENCODABLE block of more than 16 MiB (a long EMG recording whose
     first or last signal carries a label that cannot be written) over an existing block of that type.  The model never
@@ -1152,6 +1193,29 @@ def large_invalid_specs(chk):
         init = crafted(chk.work, "largeinvalid%d" % j, 4, [], rng)
         hist = [[("add", ev, None), ("add", small, "recording")], [("set", big) if j == 0 else ("replace", big, None), ("add", container.small_block("OS", rng, 1), None)]]
         out.append(("crafted N=4 empty", init, hist, "an unencodable block of more than 16 MiB replacing an existing one"))
+    return out
+
+
+def missized_specs(chk):
+    """C07 with a block whose nBytes is not the length of its own encoding (marker samples handed over as n x 4): whether
+    the library stores it or refuses it is not this property's business — but IF the call raises, nothing may have
+    changed.  The model stores it the way add_block's statements do (entry size = nBytes, the bytes = what _write
+    writes), so a refusal also shows as a difference."""
+    rng = common.rng_for(chk.seed, "missized")
+    out = []
+    for j in range(3 if chk.tier == "quick" else 12):
+        for _ in range(50):
+            fmt, v = blocks.gen("D3", rng, fmt=1 + 0 * j, big=3, nframes=rng.choice((2, 5, 9)))
+            if v[9] and any(fr != [] for fr in v[9][0][1]):
+                break
+        bad = Spec("D3", fmt, v, bad="missized")
+        good = container.small_block("D3", rng, 1)
+        ev, em = container.small_block("EV", rng, 1), container.small_block("EM", rng, 1)
+        init = crafted(chk.work, "missized%d" % j, 4, [], rng)
+        hist = [[[("add", ev, None), ("add", bad, "n x 4 samples")], [("add", em, None)]],
+                [[("add", ev, None), ("add", good, "good")], [("replace", bad, None), ("add", em, None)]],
+                [[("add", good, "good"), ("add", ev, None)], [("set", bad), ("add", em, None)]]][j % 3]
+        out.append(("crafted N=4 empty", init, hist, "a block whose nBytes is not the length of its encoding"))
     return out
 
 
